@@ -119,7 +119,7 @@ func defaultOpts(tier string) ExploreOpts {
 		o.Tier = 1
 		o.MaxPaths = 400000
 		o.TimeoutMs = 60000
-		o.Deadline = time.Now().Add(25 * time.Minute)
+		o.Deadline = time.Now().Add(12 * time.Minute) // per harness; exhausting it is reported as INCONCLUSIVE
 	}
 	return o
 }
